@@ -19,7 +19,8 @@ ASSUMPTIONS = ["p_var fed to the model is diag(p_cov) of the same result (their 
 FW_D = ["dT_dst", "dT_dast", "dT_gamma", "dT_ddf", "dT_dalpha", "dT_dta", "dgamma_ddf", "dgamma_dalpha", "dalpha_ddf", "dta_dgamma", "dta_ddf", "dta_dalpha"]
 BW_D = ["dT_drst", "dT_drast", "dT_gamma", "dT_ddb", "dT_dalpha", "dT_dta", "dgamma_ddb", "dgamma_dalpha", "dalpha_ddb", "dta_dgamma", "dta_ddb", "dta_dalpha"]
 W_D = ["dT_dst", "dT_dast", "dT_drst", "dT_drast", "dT_gamma", "dT_ddf", "dT_ddb", "dT_dalpha", "dT_dtaf", "dT_dtab", "dgamma_ddf", "dgamma_ddb",
-       "dgamma_dalpha", "dgamma_dtaf", "dgamma_dtab", "ddf_ddb", "ddf_dalpha", "ddf_dtaf", "ddf_dtab", "ddb_dalpha", "ddb_dtaf", "ddb_dtab"]
+       "dgamma_dalpha", "dgamma_dtaf", "dgamma_dtab", "ddf_ddb", "ddf_dalpha", "ddf_dtaf", "ddf_dtab", "ddb_dalpha", "ddb_dtaf", "ddb_dtab",
+       "dalpha_dtaf", "dalpha_dtab", "dtaf_dtab"]
 FW_S = ["dT_dst", "dT_dast", "dT_gamma", "dT_dc", "dT_ddalpha", "dT_dta", "dgamma_dc", "dta_dgamma", "dta_dc", "dgamma_ddalpha", "ddalpha_dc", "dta_ddalpha"]
 
 
